@@ -10984,7 +10984,9 @@ func ruleDefinitionSwitchesResolveAliases(c *core.Ctx) {
 }
 
 // auditedAliasDefaults: function -> why its default is right for an alias too
-var auditedAliasDefaults = map[string]string{}
+var auditedAliasDefaults = map[string]string{
+	"internal/cpp/binary.writeTypeConversion": "the type pair of a NumberToNumber / ComplexToComplex change holds the resolved primitives: the evolution analyser unwinds aliases before it classifies a change (`MyInt: int` -> `long` generates; the warning prints 'int32' to 'int64')",
+}
 
 // ruleEveryPatternBranchEmitsTheCaseExpression (SX1): the value of a `!switch` is the value of the matching case's
 // expression. Wherever a back end dispatches on the KIND of pattern of a switch case (`switch p := c.Pattern.(type)`),
@@ -11398,6 +11400,67 @@ func ruleResolvedDefinitionSwitchesResolveAliases(c *core.Ctx) {
 			}
 			c.Check(hasNamed || resolved, rule, key, ts.Pos(), "aliases are resolved before (or have a case of their own)",
 				"the definition behind a *SimpleType is switched over with a case for primitives, no case for *dsl.NamedType and an abort for everything else, and the type was not resolved with GetUnderlyingType first: an alias of a primitive (`MyInt: int`) reaches the abort and the generator crashes on an accepted package")
+			return true
+		})
+	}
+	// the assertion form: `p, ok := st.ResolvedDefinition.(dsl.PrimitiveDefinition)` in a function that aborts when it fails
+	for _, d := range c.AllDecls() {
+		p := c.DeclPkg(d)
+		if p == nil || d.Body == nil || c.IsTestFile(d.Pos()) || !strings.Contains(p.PkgPath, "/internal/") || strings.HasSuffix(p.PkgPath, "/internal/cmd") {
+			continue
+		}
+		info := p.TypesInfo
+		hasAbort := false
+		ast.Inspect(d.Body, func(m ast.Node) bool {
+			if ce, ok := m.(*ast.CallExpr); ok && core.NoReturn(info, ce) {
+				hasAbort = true
+			}
+			return true
+		})
+		if !hasAbort {
+			continue
+		}
+		k := 0
+		ast.Inspect(d.Body, func(nn ast.Node) bool {
+			ta, ok := nn.(*ast.TypeAssertExpr)
+			if !ok || ta.Type == nil || !strings.HasSuffix(types.ExprString(ta.Type), "PrimitiveDefinition") {
+				return true
+			}
+			se, ok := ast.Unparen(ta.X).(*ast.SelectorExpr)
+			if !ok || se.Sel.Name != "ResolvedDefinition" {
+				return true
+			}
+			// where does the *SimpleType come from?
+			resolved := false
+			cur := ast.Unparen(se.X)
+			for depth := 0; depth < 4 && cur != nil; depth++ {
+				switch x := cur.(type) {
+				case *ast.CallExpr:
+					if f := core.Callee(info, x); f != nil && (f.Name() == "GetUnderlyingType" || f.Name() == "GetPrimitiveType") {
+						resolved = true
+					}
+					cur = nil
+				case *ast.TypeAssertExpr:
+					cur = ast.Unparen(x.X)
+				case *ast.Ident:
+					if r := singleDefRHS(info, d.Body, x); r != ast.Expr(x) {
+						cur = ast.Unparen(r)
+					} else {
+						cur = nil
+					}
+				default:
+					cur = nil
+				}
+			}
+			n++
+			k++
+			key := fmt.Sprintf("%s/%s#%d", c.FuncName(d), types.ExprString(ta), k)
+			if r, ok := auditedAliasDefaults[c.FuncName(d)]; ok && !resolved {
+				c.OK(rule, key, ta.Pos(), "audited: "+r)
+				return true
+			}
+			c.Check(resolved, rule, key, ta.Pos(), "the type was resolved with GetUnderlyingType / GetPrimitiveType first",
+				"a *SimpleType's ResolvedDefinition is asserted to be a primitive in a function that aborts otherwise, and the type was not resolved first: an alias of a primitive (an enum whose `base:` is `MyInt: uint16`) reaches the abort and the generator crashes on an accepted package")
 			return true
 		})
 	}
